@@ -264,7 +264,7 @@ func ScaffoldBigAlias() Scaffold {
 
 // ScaffoldBigPair builds two 257-bit nodes (the root and the node under its first
 // label) whose label sets are equal except inside 64-bit word k of the 257-bit
-// bitmap (k = 0..3): the root carries byte x_k, the second node bytes y_k, y2_k,
+// bitmap (k = 0..3; k = 4: the single bit of byte 0xff in word 4): the root carries byte x_k, the second node bytes y_k, y2_k,
 // y3_k of that word; S hangs below y_k.  This separates code that looks at a part of a big
 // node's bitmap from code that looks at all of it.
 func ScaffoldBigPair(k int) Scaffold {
@@ -286,7 +286,13 @@ func ScaffoldBigPair(k int) Scaffold {
 		return out
 	}
 	common := wordBytes((k+2)%4, 11, 0)
-	xy := wordBytes(k, 4, 3)
+	xy := wordBytes(k%4, 4, 3)
+	if k == 4 {
+		// the last bit of the 257-bit bitmap (byte 0xff) in the root, its
+		// neighbours in the second node
+		common = wordBytes(1, 11, 0)
+		xy = []byte{0xff, 0xfe, 0xfd, 0xfc}
+	}
 	x, y := xy[0], xy[1]
 	return Scaffold{name, func(S []string) *Scaffolded {
 		var fixed []string
